@@ -532,7 +532,8 @@ def attach(rng, func, ids, p=0.3):
         parts = b.split("^")
         for k in range(1, len(parts)):
             # (row 44, freeze: the grammar of the parser has no attachments on it — recorded finding C01-freeze-attachment-rejected)
-            if parts[k].count(":") == 2 and parts[k].split(":")[1] != "44" and rng.random() < p:
+            # (a switch / invoke / landingpad — a descriptor with a fourth field — carries them at the end of its last line)
+            if parts[k].count(":") in (2, 3) and parts[k].split(":")[1] != "44" and rng.random() < p:
                 atts = ["%s=%d" % (rng.choice(MD_NAMES).hex(), rng.choice(ids)) for _ in range(rng.choice([1, 1, 1, 2, 3]))]
                 parts[k] += ":M" + "&".join(atts)
         blocks.append("^".join(parts))
